@@ -6,6 +6,8 @@ import Gws.Props.TransNego
 import Gws.Props.TransWriter
 import Gws.Props.TransLimited
 import Gws.Props.C05
+import Gws.Props.C01
+import Gws.Props.TransStep
 import Gws.Props.C06
 import Gws.Props.C16
 import Gws.Props.C17
@@ -159,5 +161,40 @@ theorem genFrame_decodes (cfg : Writer.Cfg) (codec : Codec) (cps : Win) (opcode 
   simp only [interpW] at he
   exact Writer.genFrame_decodes cfg codec cps opcode.toNat payload fc (goBytesU32LE maskNum) wire hop (by simp [goBytesU32LE])
     (by omega) hc he.symm
+
+/-! ## C01: what the translated `genFrame` of one endpoint puts on the wire, the translated `readMessage` of the other
+endpoint delivers -/
+
+/-- **End to end on the translated source.**  The frame the sender's `genFrame` (as translated from writer.go) builds for a
+final Text/Binary message on its uncompressed branch is, when it is the next thing in the receiver's input, turned by ONE
+`readMessage` (the translated segments of reader.go in the order of the Go function, `readMessageT`) into exactly one
+callback with the same opcode and the byte-identical payload; the receiver's state is unchanged and the input is
+consumed up to the end of the frame.  The receiver has the opposite role, its limit admits the payload, its UTF-8 gate
+(if on) passes it and it is not in the middle of a fragmented message. -/
+theorem frame_delivered_end_to_end (w : Writer.Cfg) (r : Reader.Cfg) (codec : Codec)
+    (hrole : r.isServer = !w.isServer) (hint : r.readMax < 2 ^ 63)
+    (cps : Win) (opcode : UInt8) (payloads : List Bytes) (fc : Writer.FrameCfg) (maskNum : UInt32) (wire : Bytes)
+    (hop : opcode = 1 ∨ opcode = 2) (hfin : fc.fin = true) (hlen : payloads.flatten.length < 2 ^ 62)
+    (hz : Writer.willCompress w fc opcode.toNat payloads.flatten.length = false)
+    (hg : Trans.Conn_genFrame GenOut.ret GenOut.compress opcode payloads.flatten (cfg_checkEncoding := fc.checkEncoding)
+          (c_config_WriteMaxPayloadSize := (w.writeMax : Int)) (cfg_compress := fc.compress) (c_pd_Threshold := (w.threshold : Int))
+          (cfg_fin := fc.fin) (cfg_broadcast := fc.broadcast) (c_isServer := w.isServer) (maskNum := maskNum) = GenOut.ret (wire, none))
+    (hfit : (payloads.flatten.length : Int) ≤ r.readMax)
+    (htext : r.checkUtf8 = true → opcode = 1 → Spec.Utf8.valid payloads.flatten = true)
+    (st : Reader.State) (hidle : st.cont.initialized = false) (hst : st.cont.opcode < 256)
+    (fh rest : Bytes) (hfh : fh.length = 14) :
+    readMessageT r codec st fh (wire ++ rest) = .ok st [.msg opcode.toNat payloads.flatten] rest := by
+  rw [readMessage_eq_step r codec st fh (wire ++ rest) hfh hst]
+  have he := genFrame_eq w codec cps opcode payloads fc maskNum hlen
+  rw [hg] at he
+  simp only [interpW] at he
+  have hop' : opcode.toNat = 1 ∨ opcode.toNat = 2 := by rcases hop with h | h <;> simp [h]
+  have htext' : r.checkUtf8 = true → opcode.toNat = 1 → Spec.Utf8.valid payloads.flatten = true := by
+    intro hc h1
+    apply htext hc
+    apply UInt8.toNat_inj.mp
+    simpa using h1
+  exact C01.frame_delivered w r codec hrole hint cps opcode.toNat payloads fc (goBytesU32LE maskNum) wire (by simp [goBytesU32LE])
+    hop' hfin hz he.symm hfit htext' st hidle rest
 
 end TransProps
